@@ -1415,3 +1415,170 @@ NEW += [
 ]
 
 VARIANTS += NEW
+
+# ======================================================================================================================
+# Second pass: rules re-anchored by role / decided on SSA values and through gate composition (held-out refactorings
+# /tmp/benign2/out-C08/2 and out-C09/2), further members of the same classes, and the broken counterparts.
+# ======================================================================================================================
+# ---- class: the element of the iteration held in an addressable local (a pointer-receiver method is called on the loop
+# variable), read through an accessor, or through a pointer to the element -------------------------------------------------
+HAS_SCOPE = [(O, '\t\tif len(statement.RegistryScopes) > 1 && slices.Contains(statement.RegistryScopes, trustpolicy.Wildcard) {',
+                 '\t\tif len(statement.RegistryScopes) > 1 && statement.hasRegistryScope(trustpolicy.Wildcard) {'),
+             (O, '// validateRegistryScopes validates if the policy document is following the\n',
+                 '// hasRegistryScope reports whether scope is one of the registry scopes of the statement\nfunc (t *OCITrustPolicy) hasRegistryScope(scope string) bool {\n\treturn slices.Contains(t.RegistryScopes, scope)\n}\n\n// validateRegistryScopes validates if the policy document is following the\n')]
+SCOPES_GETTER = [(O, '\t\tfor _, scope := range statement.RegistryScopes {', '\t\tfor _, scope := range statement.scopes() {'),
+                 (O, '// validateRegistryScopes validates if the policy document is following the\n',
+                     '// scopes returns the registry scopes of the statement\nfunc (t *OCITrustPolicy) scopes() []string {\n\treturn t.RegistryScopes\n}\n\n// validateRegistryScopes validates if the policy document is following the\n')]
+IS_GLOBAL = [(B, '\t\tif statement.GlobalPolicy {\n\t\t\tif foundGlobalPolicy {', '\t\tif statement.isGlobal() {\n\t\t\tif foundGlobalPolicy {'),
+             (B, '// Validate validates a blob trust policy document according to its version\'s\n',
+                 '// isGlobal reports whether the statement is the global one\nfunc (t *BlobTrustPolicy) isGlobal() bool {\n\treturn t.GlobalPolicy\n}\n\n// Validate validates a blob trust policy document according to its version\'s\n')]
+NEW2 = [
+ dict(name='benign-scope-method-on-loop-variable', expect='silent', edits=HAS_SCOPE),
+ dict(name='benign-scope-accessor-on-loop-variable', expect='silent', edits=SCOPES_GETTER),
+ dict(name='benign-scope-method-and-accessor', expect='silent', edits=HAS_SCOPE[:1] + SCOPES_GETTER[:1] + [
+     (O, '// validateRegistryScopes validates if the policy document is following the\n',
+         '// hasRegistryScope reports whether scope is one of the registry scopes of the statement\nfunc (t *OCITrustPolicy) hasRegistryScope(scope string) bool {\n\treturn slices.Contains(t.scopes(), scope)\n}\n\n// scopes returns the registry scopes of the statement\nfunc (t *OCITrustPolicy) scopes() []string {\n\treturn t.RegistryScopes\n}\n\n// validateRegistryScopes validates if the policy document is following the\n')]),
+ dict(name='benign-scope-pointer-to-element', expect='silent',
+      edits=[(O, 'func validateRegistryScopes(policyDoc *OCIDocument) error {\n\tregistryScopeCount := make(map[string]int)\n\tfor _, statement := range policyDoc.TrustPolicies {\n',
+                 'func validateRegistryScopes(policyDoc *OCIDocument) error {\n\tregistryScopeCount := make(map[string]int)\n\tfor i := range policyDoc.TrustPolicies {\n\t\tstatement := &policyDoc.TrustPolicies[i]\n')] + HAS_SCOPE),
+ dict(name='benign-global-method-on-loop-variable', expect='silent', edits=IS_GLOBAL),
+ # the local copy is not read-only: the method called on it drops all scopes but the first before they are checked
+ dict(name='scope-method-mutates-copy', expect='flagged(scope/loops)',
+      edits=HAS_SCOPE + [(O, '\t\t// Verify registry scopes are valid\n\t\tif len(statement.RegistryScopes) == 0 {', '\t\tstatement.firstScopeOnly()\n\t\t// Verify registry scopes are valid\n\t\tif len(statement.RegistryScopes) == 0 {'),
+                         (O, '// hasRegistryScope reports whether', '// firstScopeOnly keeps the first scope\nfunc (t *OCITrustPolicy) firstScopeOnly() {\n\tif len(t.RegistryScopes) > 1 {\n\t\tt.RegistryScopes = t.RegistryScopes[:1]\n\t}\n}\n\n// hasRegistryScope reports whether')]),
+ dict(name='scope-method-wildcard-first-only', expect='flagged(scope/wildcard-alone)',
+      edits=HAS_SCOPE + [(O, '\treturn slices.Contains(t.RegistryScopes, scope)\n}\n\n// validateRegistryScopes', '\treturn len(t.RegistryScopes) > 0 && t.RegistryScopes[0] == scope\n}\n\n// validateRegistryScopes')]),
+ dict(name='scope-method-other-receiver', expect='flagged(scope/wildcard-alone)',
+      edits=HAS_SCOPE + [(O, '\t\tif len(statement.RegistryScopes) > 1 && statement.hasRegistryScope(trustpolicy.Wildcard) {', '\t\tif len(statement.RegistryScopes) > 1 && (&policyDoc.TrustPolicies[0]).hasRegistryScope(trustpolicy.Wildcard) {')]),
+ dict(name='scope-loop-over-first-statement', expect='flagged(scope/loops)',
+      edits=HAS_SCOPE + [(O, '\t\tfor _, scope := range statement.RegistryScopes {', '\t\tfor _, scope := range policyDoc.TrustPolicies[0].RegistryScopes {')]),
+ dict(name='scope-accessor-other-field', expect='flagged(scope/loops)',
+      edits=SCOPES_GETTER + [(O, 'func (t *OCITrustPolicy) scopes() []string {\n\treturn t.RegistryScopes\n}', 'func (t *OCITrustPolicy) scopes() []string {\n\treturn t.TrustStores\n}')]),
+ dict(name='scope-accessor-truncates', expect='flagged(scope/loops)',
+      edits=SCOPES_GETTER + [(O, 'func (t *OCITrustPolicy) scopes() []string {\n\treturn t.RegistryScopes\n}', 'func (t *OCITrustPolicy) scopes() []string {\n\tif len(t.RegistryScopes) > 4 {\n\t\treturn t.RegistryScopes[:4]\n\t}\n\treturn t.RegistryScopes\n}')]),
+ dict(name='global-method-ignores-flag', expect='flagged(blob/document/global-rules)',
+      edits=IS_GLOBAL + [(B, 'func (t *BlobTrustPolicy) isGlobal() bool {\n\treturn t.GlobalPolicy\n}', 'func (t *BlobTrustPolicy) isGlobal() bool {\n\treturn t.GlobalPolicy && len(t.TrustStores) > 0\n}')]),
+]
+
+# ---- class: membership test inlined / written with the library / enumerated; entry split and name test behind helpers ------
+TYPE_IF = '\t\tif !isValidTrustStoreType(storeType) {\n\t\t\treturn fmt.Errorf("trust policy statement %q uses an unsupported trust store type %q in trust store value %q", policyName, storeType, trustStore)\n\t\t}\n'
+TYPE_SWITCH = '\t\tswitch truststore.Type(storeType) {\n\t\tcase truststore.TypeCA, truststore.TypeSigningAuthority, truststore.TypeTSA:\n\t\tdefault:\n\t\t\treturn fmt.Errorf("trust policy statement %q uses an unsupported trust store type %q in trust store value %q", policyName, storeType, trustStore)\n\t\t}\n'
+TYPE_HELPER_BODY = '\tfor _, p := range truststore.Types {\n\t\tif s == string(p) {\n\t\t\treturn true\n\t\t}\n\t}\n\treturn false\n'
+SPLIT = [(T, '\t\tstoreType, namedStore, found := strings.Cut(trustStore, ":")\n\t\tif !found {\n\t\t\treturn fmt.Errorf("trust policy statement %q has malformed trust store value %q. The required format is <TrustStoreType>:<TrustStoreName>", policyName, trustStore)\n\t\t}\n',
+             '\t\tstoreType, namedStore, err := splitTrustStore(policyName, trustStore)\n\t\tif err != nil {\n\t\t\treturn err\n\t\t}\n'),
+         (T, '// validateTrustStore validates if the policy statement is following the\n',
+             '// splitTrustStore splits a trust store value into its type and its name\nfunc splitTrustStore(policyName, trustStore string) (string, string, error) {\n\tstoreType, namedStore, found := strings.Cut(trustStore, ":")\n\tif !found {\n\t\treturn "", "", fmt.Errorf("trust policy statement %q has malformed trust store value %q. The required format is <TrustStoreType>:<TrustStoreName>", policyName, trustStore)\n\t}\n\treturn storeType, namedStore, nil\n}\n\n// validateTrustStore validates if the policy statement is following the\n')]
+NAME_WRAP = [(T, '\t\tif !file.IsValidFileName(namedStore) {', '\t\tif !isSafeStoreName(namedStore) {'),
+             (T, '// validateTrustStore validates if the policy statement is following the\n',
+                 '// isSafeStoreName reports whether the name can be used as a directory name\nfunc isSafeStoreName(s string) bool {\n\treturn file.IsValidFileName(s)\n}\n\n// validateTrustStore validates if the policy statement is following the\n')]
+NEW2 += [
+ dict(name='benign-store-type-inline-contains', expect='silent',
+      edits=[(T, '\t\tif !isValidTrustStoreType(storeType) {', '\t\tif !slices.Contains(truststore.Types, truststore.Type(storeType)) {')]),
+ dict(name='benign-store-type-inline-loop', expect='silent',
+      edits=[(T, TYPE_IF, '\t\tknownType := false\n\t\tfor _, t := range truststore.Types {\n\t\t\tif string(t) == storeType {\n\t\t\t\tknownType = true\n\t\t\t\tbreak\n\t\t\t}\n\t\t}\n\t\tif !knownType {\n\t\t\treturn fmt.Errorf("trust policy statement %q uses an unsupported trust store type %q in trust store value %q", policyName, storeType, trustStore)\n\t\t}\n')]),
+ dict(name='benign-store-type-switch-constants', expect='silent', edits=[(T, TYPE_IF, TYPE_SWITCH)]),
+ dict(name='benign-store-type-helper-contains', expect='silent',
+      edits=[(T, TYPE_HELPER_BODY, '\treturn slices.Contains(truststore.Types, truststore.Type(s))\n')]),
+ dict(name='benign-store-split-helper', expect='silent', edits=SPLIT),
+ dict(name='benign-store-name-wrapper', expect='silent', edits=NAME_WRAP),
+ dict(name='benign-store-all-helpers', expect='silent', edits=[SPLIT[0], NAME_WRAP[0], (T, TYPE_IF, TYPE_SWITCH),
+      (T, '// validateTrustStore validates if the policy statement is following the\n', SPLIT[1][2].replace('// validateTrustStore validates if the policy statement is following the\n', '') + NAME_WRAP[1][2])]),
+ dict(name='store-type-inline-contains-name-part', expect='flagged(store/known-type)',
+      edits=[(T, '\t\tif !isValidTrustStoreType(storeType) {', '\t\tif !slices.Contains(truststore.Types, truststore.Type(namedStore)) {')]),
+ dict(name='store-type-inline-contains-other-list', expect='flagged(store/known-type)',
+      edits=[(T, '\t\tif !isValidTrustStoreType(storeType) {', '\t\tif !slices.Contains([]string{"ca", "signingAuthority", "tsa", policyName}, storeType) {')]),
+ dict(name='store-type-inline-loop-flag-preset', expect='flagged(store/known-type)',
+      edits=[(T, TYPE_IF, '\t\tknownType := storeType == ""\n\t\tfor _, t := range truststore.Types {\n\t\t\tif string(t) == storeType {\n\t\t\t\tknownType = true\n\t\t\t\tbreak\n\t\t\t}\n\t\t}\n\t\tif !knownType {\n\t\t\treturn fmt.Errorf("trust policy statement %q uses an unsupported trust store type %q in trust store value %q", policyName, storeType, trustStore)\n\t\t}\n')]),
+ dict(name='store-type-switch-extra-case', expect='flagged(store/known-type)',
+      edits=[(T, TYPE_IF, TYPE_SWITCH.replace('truststore.TypeTSA:', 'truststore.TypeTSA, "any":'))]),
+ dict(name='store-type-switch-default-passes', expect='flagged(store/known-type)',
+      edits=[(T, TYPE_IF, TYPE_SWITCH.replace('\t\tdefault:\n\t\t\treturn fmt', '\t\tcase "":\n\t\t\treturn fmt'))]),
+ dict(name='store-type-helper-prefix', expect='flagged(store/known-type)',
+      edits=[(T, TYPE_HELPER_BODY, '\tfor _, p := range truststore.Types {\n\t\tif strings.HasPrefix(s, string(p)) {\n\t\t\treturn true\n\t\t}\n\t}\n\treturn false\n')]),
+ dict(name='store-split-helper-error-dropped', expect='flagged(store/separator)',
+      edits=SPLIT + [(T, '\t\tstoreType, namedStore, err := splitTrustStore(policyName, trustStore)\n\t\tif err != nil {\n\t\t\treturn err\n\t\t}\n', '\t\tstoreType, namedStore, _ := splitTrustStore(policyName, trustStore)\n')]),
+ dict(name='store-split-helper-tolerates-missing-separator', expect='flagged(store/separator)',
+      edits=SPLIT + [(T, '\tif !found {\n\t\treturn "", "", fmt.Errorf("trust policy statement %q has malformed', '\tif !found && storeType == "" {\n\t\treturn "", "", fmt.Errorf("trust policy statement %q has malformed')]),
+ dict(name='store-name-wrapper-loosened', expect='flagged(store/safe-name)',
+      edits=NAME_WRAP + [(T, '\treturn file.IsValidFileName(s)\n', '\treturn strings.HasPrefix(s, "_") || file.IsValidFileName(s)\n')]),
+ dict(name='store-name-wrapper-on-type-part', expect='flagged(store/safe-name)',
+      edits=NAME_WRAP + [(T, '\t\tif !isSafeStoreName(namedStore) {', '\t\tif !isSafeStoreName(storeType) {')]),
+]
+
+# ---- class: parameters reordered / narrowed / widened; the scope rules inlined into the document validator --------------------
+CORE_CALL = 'validatePolicyCore(statement.Name, statement.SignatureVerification, statement.TrustStores, statement.TrustedIdentities)'
+CORE_REORDER = [(T, 'func validatePolicyCore(name string, signatureVerification SignatureVerification, trustStores, trustedIdentities []string) error {',
+                    'func validatePolicyCore(signatureVerification SignatureVerification, trustedIdentities, trustStores []string, name string) error {'),
+                (O, CORE_CALL, 'validatePolicyCore(statement.SignatureVerification, statement.TrustedIdentities, statement.TrustStores, statement.Name)'),
+                (B, CORE_CALL, 'validatePolicyCore(statement.SignatureVerification, statement.TrustedIdentities, statement.TrustStores, statement.Name)')]
+CORE_WIDEN = [(T, 'func validatePolicyCore(name string, signatureVerification SignatureVerification, trustStores, trustedIdentities []string) error {',
+                  'func validatePolicyCore(kind, name string, signatureVerification *SignatureVerification, trustStores, trustedIdentities []string) error {\n\t_ = kind'),
+              (O, CORE_CALL, 'validatePolicyCore("oci", statement.Name, &statement.SignatureVerification, statement.TrustStores, statement.TrustedIdentities)'),
+              (B, CORE_CALL, 'validatePolicyCore("blob", statement.Name, &statement.SignatureVerification, statement.TrustStores, statement.TrustedIdentities)')]
+LIST_NARROW = [(T, 'func validateTrustStore(policyName string, trustStores []string) error {', 'func validateTrustStore(trustStores []string, policyName string) error {'),
+               (T, '\t\tif err := validateTrustStore(name, trustStores); err != nil {', '\t\tif err := validateTrustStore(trustStores, name); err != nil {'),
+               (T, 'func validateTrustedIdentities(policyName string, tis []string) error {', 'func validateTrustedIdentities(kind string, tis []string, policyName string) error {\n\t_ = kind'),
+               (T, '\t\tif err := validateTrustedIdentities(name, trustedIdentities); err != nil {', '\t\tif err := validateTrustedIdentities("statement", trustedIdentities, name); err != nil {')]
+SCOPE_WIDEN = [(O, 'func validateRegistryScopes(policyDoc *OCIDocument) error {', 'func validateRegistryScopes(kind string, policyDoc *OCIDocument) error {\n\t_ = kind'),
+               (O, '\tif err := validateRegistryScopes(policyDoc); err != nil {', '\tif err := validateRegistryScopes("oci", policyDoc); err != nil {')]
+SCOPE_BODY = '''	registryScopeCount := make(map[string]int)
+	for _, statement := range policyDoc.TrustPolicies {
+		// Verify registry scopes are valid
+		if len(statement.RegistryScopes) == 0 {
+			return fmt.Errorf("oci trust policy statement %q has zero registry scopes, it must specify registry scopes with at least one value", statement.Name)
+		}
+		if len(statement.RegistryScopes) > 1 && slices.Contains(statement.RegistryScopes, trustpolicy.Wildcard) {
+			return fmt.Errorf("oci trust policy statement %q uses wildcard registry scope '*', a wildcard scope cannot be used in conjunction with other scope values", statement.Name)
+		}
+		for _, scope := range statement.RegistryScopes {
+			if scope != trustpolicy.Wildcard {
+				if err := validateRegistryScopeFormat(scope); err != nil {
+					return err
+				}
+			}
+			registryScopeCount[scope]++
+		}
+	}
+
+	// Verify one policy statement per registry scope
+	for key := range registryScopeCount {
+		if registryScopeCount[key] > 1 {
+			return fmt.Errorf("registry scope %q is present in multiple oci trust policy statements, one registry scope value can only be associated with one statement", key)
+		}
+	}
+'''
+SCOPE_INLINE = [(O, '\t// Verify registry scopes are valid\n\tif err := validateRegistryScopes(policyDoc); err != nil {\n\t\treturn err\n\t}\n\treturn nil\n}', '\t// Verify registry scopes are valid\n' + SCOPE_BODY + '\treturn nil\n}')]
+NEW2 += [
+ dict(name='benign-core-parameters-reordered', expect='silent', edits=CORE_REORDER),
+ dict(name='benign-core-parameters-widened', expect='silent', edits=CORE_WIDEN),
+ dict(name='benign-list-validators-parameters', expect='silent', edits=LIST_NARROW),
+ dict(name='benign-scope-validator-widened', expect='silent', edits=SCOPE_WIDEN),
+ dict(name='benign-scope-rules-inlined', expect='silent', edits=SCOPE_INLINE),
+ dict(name='core-reordered-stores-passed-twice', expect='flagged(document/core-rules)',
+      edits=CORE_REORDER[:1] + [(O, CORE_CALL, 'validatePolicyCore(statement.SignatureVerification, statement.TrustStores, statement.TrustStores, statement.Name)'),
+                                (B, CORE_CALL, 'validatePolicyCore(statement.SignatureVerification, statement.TrustStores, statement.TrustStores, statement.Name)')]),
+ dict(name='core-reordered-lists-swapped-in-oci', expect='flagged(siblings/core)',
+      edits=CORE_REORDER[:1] + [(O, CORE_CALL, 'validatePolicyCore(statement.SignatureVerification, statement.TrustStores, statement.TrustedIdentities, statement.Name)'),
+                                CORE_REORDER[2]]),
+ dict(name='core-of-first-statement', expect='flagged(document/core-rules)',
+      edits=[(O, '\tfor _, statement := range policyDoc.TrustPolicies {\n\t\t// Verify unique policy statement names across the policy document\n', '\tfor range policyDoc.TrustPolicies {\n\t\tstatement := policyDoc.TrustPolicies[0]\n\t\t// Verify unique policy statement names across the policy document\n')]),
+ dict(name='core-widened-other-signature-verification', expect='flagged(core/level-valid)',
+      edits=CORE_WIDEN + [(T, '\tverificationLevel, err := signatureVerification.GetVerificationLevel()\n\tif err != nil {\n\t\treturn fmt.Errorf("trust policy statement %q has invalid signatureVerification: %w", name, err)',
+                              '\tverificationLevel, err := (&SignatureVerification{VerificationLevel: signatureVerification.VerificationLevel}).GetVerificationLevel()\n\tif err != nil {\n\t\treturn fmt.Errorf("trust policy statement %q has invalid signatureVerification: %w", name, err)')]),
+ dict(name='list-validators-identities-as-stores', expect='flagged(core/)',
+      edits=LIST_NARROW[:2] + [(T, '\t\tif err := validateTrustedIdentities(name, trustedIdentities); err != nil {', '\t\tif err := validateTrustedIdentities(name, trustStores); err != nil {')]),
+ dict(name='scope-validator-widened-skips-first', expect='flagged(scope)',
+      edits=SCOPE_WIDEN + [(O, '\tregistryScopeCount := make(map[string]int)\n\tfor _, statement := range policyDoc.TrustPolicies {', '\tregistryScopeCount := make(map[string]int)\n\tfor _, statement := range policyDoc.TrustPolicies[1:] {')]),
+ dict(name='scope-rules-inlined-bypassed', expect='flagged(scope)',
+      edits=[(O, SCOPE_INLINE[0][1], '\t// Verify registry scopes are valid\n\tif len(policyDoc.TrustPolicies) > 64 {\n\t\treturn nil\n\t}\n' + SCOPE_BODY + '\treturn nil\n}')]),
+ dict(name='scope-rules-inlined-early-accept-in-loop', expect='flagged(scope)',
+      edits=[(O, SCOPE_INLINE[0][1], '\t// Verify registry scopes are valid\n' + SCOPE_BODY.replace('\t\tfor _, scope := range statement.RegistryScopes {', '\t\tif statement.Name == "default" {\n\t\t\treturn nil\n\t\t}\n\t\tfor _, scope := range statement.RegistryScopes {') + '\treturn nil\n}')]),
+ dict(name='benign-empty-checks-by-length', expect='silent',
+      edits=[(T, '\tif name == "" {\n\t\treturn errors.New("a trust policy statement is missing a name', '\tif len(name) == 0 {\n\t\treturn errors.New("a trust policy statement is missing a name'),
+             (O, '\tif policyDoc.Version == "" {', '\tif len(policyDoc.Version) == 0 {'),
+             (B, '\tif policyDoc.Version == "" {', '\tif len(policyDoc.Version) == 0 {')]),
+ dict(name='empty-name-check-by-length-of-stores', expect='flagged(core/empty-name)',
+      edits=[(T, '\tif name == "" {\n\t\treturn errors.New("a trust policy statement is missing a name', '\tif len(trustStores) == 0 && len(name) == 0 {\n\t\treturn errors.New("a trust policy statement is missing a name')]),
+]
+
+VARIANTS += NEW2
